@@ -2,12 +2,15 @@ from kernels import K
 
 # ---------------------------------------------------------------- C10
 # C10.c  VectorT / VectorNumT copy-on-write
+# pass pipeline without instcombine: instcombine rewrites memmove(dst, src, 8) into an i64 load/store, i.e. reads two ints /
+# one double as integer bits, which the typed memory of the symbolic executor (rightly) refuses
+_COW_PASSES = 'function(sroa,early-cse,simplifycfg),cgscc(inline),function(sroa,early-cse,simplifycfg,adce),globaldce'
 _COW_ASSUME = ['element values are reals (double) / mathematical ints with overflow obligations (int); the members only copy and compare them, '
                'except the VectorNumT arithmetic members which are run on integer-valued content |v| <= 1000',
                'both vectors are VectorNumT<T> objects built by the real constructors (size constructor, copy constructor): use_count == 2 on entry']
 for _t, _isint in (('double', 0), ('int', 1)):
     for _n in (0, 1, 2, 3):
-        K('C10.c.%s.%d' % (_t, _n), property='C10', engine='symex', harness='C10/cow.cpp', entry='k_cow', tus=[],
+        K('C10.c.%s.%d' % (_t, _n), property='C10', engine='symex', harness='C10/cow.cpp', entry='k_cow', tus=[], passes=_COW_PASSES,
           defines={'all': {'VF_INT': _isint, 'VF_N': _n, 'VF_SET': 0}},
           bounds={'quick': 'VectorNumT<%s>, exactly %d elements of arbitrary value, every valid position / count argument; member called on the source and on the copy' % (_t, _n)},
           timeout_ms={'quick': 60000, 'thorough': 600000}, validate={'quick': 10, 'thorough': 30}, validate_doubles='int',
@@ -17,15 +20,16 @@ for _t, _isint in (('double', 0), ('int', 1)):
           out='VectorNumT::divide (calls libc abs); T other than double/int; more than 3 elements; threads (use_count races); moved-from vectors',
           assumptions=_COW_ASSUME,
           stubs=['throw_exp(msg,file,line): throws an int (real one formats the message through iostream); never reached with valid positions'])
-    for _n in (1, 2, 3):
-        K('C10.c.%s.%d.constiter' % (_t, _n), property='C10', engine='symex', harness='C10/cow.cpp', entry='k_cow', tus=[],
-          defines={'all': {'VF_INT': _isint, 'VF_N': _n, 'VF_SET': 1}},
-          bounds={'quick': 'VectorNumT<%s>, exactly %d elements, erase(pos), erase(first,last), insert(pos,first,last) with pos = cbegin()+i for every valid i' % (_t, _n)},
+    for _op, _opn in ((0, 'erase(pos)'), (1, 'erase(first,last)'), (2, 'insert(pos,first,last)')):
+        K('C10.c.%s.constiter.%d' % (_t, _op), property='C10', engine='symex', harness='C10/cow.cpp', entry='k_cow', tus=[], passes=_COW_PASSES,
+          defines={'all': {'VF_INT': _isint, 'VF_N': 2, 'VF_SET': 1, 'VF_OP': _op}},
+          bounds={'quick': 'VectorNumT<%s>, exactly 2 elements, %s with pos = cbegin()+i for every valid i' % (_t, _opn)},
           timeout_ms={'quick': 60000, 'thorough': 600000}, validate={'quick': 10, 'thorough': 30}, validate_doubles='int',
-          what='VectorT<T>::erase / insert taking const_iterator positions obtained from the const accessors (cbegin/cend) while the buffer is shared',
+          what='VectorT<T>::%s taking const_iterator positions obtained from the const accessors (cbegin/cend) while the buffer is shared: '
+               'no undefined operation, the other vector keeps size and elements' % _opn,
           out='as C10.c', assumptions=_COW_ASSUME,
           stubs=['throw_exp(msg,file,line): throws an int'])
-    K('C10.c.%s.getVector' % _t, property='C10', engine='symex', harness='C10/cow.cpp', entry='k_cow', tus=[],
+    K('C10.c.%s.getVector' % _t, property='C10', engine='symex', harness='C10/cow.cpp', entry='k_cow', tus=[], passes=_COW_PASSES,
       defines={'all': {'VF_INT': _isint, 'VF_N': 2, 'VF_SET': 2}},
       bounds={'quick': 'VectorNumT<%s>, 2 elements, write through getVector() / getVectorPtr()' % _t},
       timeout_ms={'quick': 60000, 'thorough': 600000}, validate={'quick': 10, 'thorough': 30}, validate_doubles='int',
